@@ -58,3 +58,25 @@ def import_target():
 
     logging.getLogger("pyoma2").setLevel(logging.CRITICAL + 1)
     return pyoma2
+
+
+_LOG = {}
+
+
+def set_log_debug(on: bool) -> None:
+    """One configuration dimension of a history: the package logger at DEBUG (what PYOMA_LOG_LEVEL=DEBUG gives) or
+    silent. Results must not depend on it."""
+    import logging
+
+    lg = logging.getLogger("pyoma2")
+    if "handler" not in _LOG:
+        class H(logging.Handler):
+            def emit(self, record):
+                try:
+                    self.format(record)
+                except Exception:  # logging never lets a formatting error reach the caller
+                    pass
+
+        _LOG["handler"] = H(level=logging.DEBUG)
+        lg.addHandler(_LOG["handler"])
+    lg.setLevel(logging.DEBUG if on else logging.CRITICAL + 1)
